@@ -261,7 +261,12 @@ def address_case():
              ('nonce-tcp:host=h,port=99,noncefile=/tmp/n', [('TCP4ClientEndpoint', {'_host': 'h', '_port': 99})]),
              ('unix:path=/x;tcp:host=a,port=1;nonce-tcp:host=b,port=2,noncefile=/n;unix:abstract=q',
               [('UNIXClientEndpoint', {'_path': '/x'}), ('TCP4ClientEndpoint', {'_host': 'a', '_port': 1}), ('TCP4ClientEndpoint', {'_host': 'b', '_port': 2}), ('UNIXClientEndpoint', {'_path': '\0q'})]),
-             ('tcp:host=a,port=1;unix:path=/x', [('TCP4ClientEndpoint', {'_host': 'a', '_port': 1}), ('UNIXClientEndpoint', {'_path': '/x'})])]
+             ('tcp:host=a,port=1;unix:path=/x', [('TCP4ClientEndpoint', {'_host': 'a', '_port': 1}), ('UNIXClientEndpoint', {'_path': '/x'})]),
+             # entries that differ in ONE parameter only (same host, other port; same directory, other socket) are different addresses
+             ('tcp:host=a,port=4001;tcp:host=a,port=4002;nonce-tcp:host=a,port=4003,noncefile=/n',
+              [('TCP4ClientEndpoint', {'_host': 'a', '_port': 4001}), ('TCP4ClientEndpoint', {'_host': 'a', '_port': 4002}), ('TCP4ClientEndpoint', {'_host': 'a', '_port': 4003})]),
+             ('unix:path=/run/a;unix:path=/run/b;unix:abstract=/run/a', [('UNIXClientEndpoint', {'_path': '/run/a'}), ('UNIXClientEndpoint', {'_path': '/run/b'}), ('UNIXClientEndpoint', {'_path': '\0/run/a'})]),
+             ('tcp:host=a,port=1,family=ipv4;tcp:host=b,port=1', [('TCP4ClientEndpoint', {'_host': 'a', '_port': 1}), ('TCP4ClientEndpoint', {'_host': 'b', '_port': 1})])]
     saved = {k: os.environ.get(k) for k in ('DBUS_SESSION_BUS_ADDRESS', 'DBUS_SYSTEM_BUS_ADDRESS')}
     try:
         os.environ['DBUS_SESSION_BUS_ADDRESS'] = 'unix:path=/run/session;tcp:host=s,port=5'
